@@ -1,5 +1,6 @@
 Require Extraction.
 Require Import ExtrOcamlBasic.
-From Herc Require Import Base.Conv LineStats.Model.
+From Herc Require Import Base.Conv LineStats.Model LineStats.Fast.
 Extraction "c12_model.ml" conv_anchor line_stats lsc_consume step_stats devs_run devs_result commits_run replay_ok
-  once_ok no_del_del canonical inserted deleted langs_sum_ok conserve_ok count_commit single_branch.
+  once_ok no_del_del canonical inserted deleted langs_sum_ok conserve_ok count_commit single_branch
+  steps_map single_fast replay_ok_fast once_ok_fast same_keys commits_run_fast devs_result_fast.
